@@ -1,0 +1,20 @@
+//go:build verif
+
+package querystring
+
+// Contracts for govc (contract-based deductive verification, see /verif/DESIGN.md).
+// This file contains comments only and is compiled only with the build tag `verif`.
+
+// C12: building the filter from its JSON form: "modifier" feeds the two when-true branches, "else" the two when-false
+// branches, each side with its own projection of the parsed subtree; the filter is offered under the message's scope.
+//@ extern func parse.FromJSON
+//@   ensures (result1 == nil) == (result0 != nil)
+//@ extern func json.Unmarshal
+//@   modifies filterJSON.*
+//@ func filterFromJSON
+//@   serves C12
+//@   at call 0 of RequestWhenTrue before assert[then-branch-request-side-from-modifier] self == f.Filter && arg0 == r.reqmod
+//@   at call 0 of ResponseWhenTrue before assert[then-branch-response-side-from-modifier] self == f.Filter && arg0 == r.resmod
+//@   at call 0 of RequestWhenFalse before assert[else-branch-request-side-from-else] self == f.Filter && arg0 == em.reqmod
+//@   at call 0 of ResponseWhenFalse before assert[else-branch-response-side-from-else] self == f.Filter && arg0 == em.resmod
+//@   at call 0 of NewResult before assert[the-filter-is-offered-under-the-message-scope] arg0 == iface(f) && arg1 == msg.Scope
